@@ -189,8 +189,9 @@ class Sched:
             me.steps += 1
             self._handoff(me)
 
-    def block(self, timeout=None, on=None):
-        """Block the current thread.  Returns True if woken, False on timeout."""
+    def block(self, timeout=None, on=None, until=None):
+        """Block the current thread.  Returns True if woken, False on timeout.  `until`
+        is an absolute virtual instant (no rounding through a relative timeout)."""
         if self.aborting:
             raise SimAbort()
         me = self.cur
@@ -199,9 +200,10 @@ class Sched:
         me.blocked_on = on
         self.seq += 1
         me.wait_token = self.seq
-        if timeout is not None:
-            heapq.heappush(self.timers, (self.world.now + max(0.0, timeout), self.seq, me,
-                                         self.seq))
+        if until is None and timeout is not None:
+            until = self.world.now + max(0.0, timeout)
+        if until is not None:
+            heapq.heappush(self.timers, (max(until, self.world.now), self.seq, me, self.seq))
         me.steps += 1
         self._handoff(me)
         me.blocked_on = None
@@ -213,7 +215,7 @@ class Sched:
         if wire is not None:
             wire.waiters.append(me)
         try:
-            self.block(None if until is None else until - self.world.now,
+            self.block(until=until,
                        on=("wire", wire.id if wire is not None else None, self.ctx_site()))
         finally:
             if wire is not None:
@@ -224,9 +226,9 @@ class Sched:
 
     def sleep(self, d):
         t = self.world.now + d
-        self.block(d, on=("sleep",))
+        self.block(until=t, on=("sleep",))
         while self.world.now < t:
-            self.block(t - self.world.now, on=("sleep",))
+            self.block(until=t, on=("sleep",))
 
     def spawn(self, fn, name):
         t = SimThread(self, fn, name)
@@ -270,6 +272,7 @@ class Sched:
         elif self.stepcap_hit:
             err = StepCap()
         # teardown
+        self.world.log("TEARDOWN", len(getattr(self.world, "trace_events", ())))
         self.aborting = True
         self.world.on_change = None
         self.on_quiescent = None
